@@ -191,7 +191,7 @@ Definition gen_code (d : dcase) : Z :=
 Definition obs_class (d : dcase) : Z :=
   if d_cls d =? 3 then (if o_incall d =? 1 then 1 else 15)
   else if o_incall d =? 1 then (if o_fout d =? 0 then 1 else 11)
-  else if o_aout d =? 1 then 15 else 0.
+  else if (o_aout d =? 1) || (1 <=? o_ran d) then 15 else 0.   (* still counted after the call, or ran later on a pool thread *)
 Definition exp_class (d : dcase) : Z :=
   let g := gen_code d in
   if d_cls d =? 3 then (if g =? 1 then 1 else 15)
@@ -203,8 +203,10 @@ Definition c04_domain (conc force skip caninline overloaded cancelled : bool) : 
 Definition d_in_domain (d : dcase) : bool :=
   c04_domain ((d_cls d =? 1) || (d_cls d =? 2)) (d_force d) (d_skip d) (d_depth d <? c_kMaxInlineDepth)
              (dec_overloaded (d_recursive d) (d_wr d) (d_n d) (d_plf d) (d_prlf2 d)) (d_canc d).
+(* a queued task of a cancelled set may already have been dequeued and skipped by an idle worker when the caller looks: indistinguishable from "nothing" *)
 Definition d_agrees (d : dcase) : bool :=
-  if 0 <? d_bulk d then true else obs_class d =? exp_class d.
+  if 0 <? d_bulk d then true
+  else (obs_class d =? exp_class d) || ((exp_class d =? 15) && d_canc d && (obs_class d =? 0)).
 (* C04 on the real code: a cancelled set runs nothing; C47: a ForceQueuingTag call with numThreads >= 1 runs nothing on the caller *)
 Definition d_check_C04 (d : dcase) : bool := negb (d_canc d) || (d_cls d =? 3) || ((o_incall d =? 0) && (o_ran d =? 0)).
 Definition d_check_C47 (d : dcase) : bool := negb (d_force d) || (d_n d <? 1) || (o_incall d =? 0).
